@@ -702,6 +702,9 @@ func (a *stateAn) bracketed(g *ssa.Global, roots []*ssa.Function, gr *Grammar, s
 	if len(a.escapes[g]) > 0 {
 		return false, "address escapes"
 	}
+	if ok, why := a.balancedCounter(g); ok {
+		return true, why
+	}
 	ea := &exitAn{a: a, g: g, init: init, memo: map[*ssa.Function]int{}, prog: map[*ssa.Function]bool{}}
 	type cb struct{ kind, rule, name string }
 	var W, Z []cb
@@ -749,6 +752,54 @@ func (a *stateAn) bracketed(g *ssa.Global, roots []*ssa.Function, gr *Grammar, s
 	}
 	sort.Strings(why)
 	return true, "bracketed: " + strings.Join(why, "; ")
+}
+
+// balancedCounter: an integer that is only ever moved by Enter<R> (+k, unconditionally) and Exit<R> (-k, unconditionally) of
+// the same rules is a nesting depth: every Enter is matched by its Exit, so between units it holds its initial value.
+func (a *stateAn) balancedCounter(g *ssa.Global) (bool, string) {
+	bt, isBasic := g.Type().Underlying().(*types.Pointer).Elem().Underlying().(*types.Basic)
+	if !isBasic || bt.Info()&types.IsInteger == 0 || len(a.stores[g]) == 0 {
+		return false, ""
+	}
+	delta := map[string]int64{}
+	for _, st := range a.stores[g] {
+		fn := st.Parent()
+		kind, rule, isCb := callbackRule(fn.Name())
+		if !isCb || fn.Signature.Recv() == nil {
+			return false, ""
+		}
+		bo, ok := st.Val.(*ssa.BinOp)
+		if !ok || (bo.Op != token.ADD && bo.Op != token.SUB) || loadedGlobal(bo.X) != g {
+			return false, ""
+		}
+		k, ok := constInt(bo.Y)
+		if !ok {
+			return false, ""
+		}
+		if bo.Op == token.SUB {
+			k = -k
+		}
+		// unconditional: the store's block dominates every returning block
+		for _, b := range fn.Blocks {
+			if len(b.Instrs) == 0 {
+				continue
+			}
+			if _, isRet := b.Instrs[len(b.Instrs)-1].(*ssa.Return); isRet && !st.Block().Dominates(b) {
+				return false, ""
+			}
+		}
+		if kind == "Enter" {
+			delta[rule] += k
+		} else {
+			delta[rule] += k
+		}
+	}
+	for _, d := range delta {
+		if d != 0 {
+			return false, ""
+		}
+	}
+	return true, "balanced counter: moved only by matching Enter/Exit callbacks, by opposite amounts, unconditionally"
 }
 
 // ---------------------------------------------------------------------------------------------
